@@ -7,11 +7,13 @@ impl KeyV for str { type KV = Seq<char>; open spec fn kv(&self) -> Seq<char> { s
 impl KeyV for usize { type KV = usize; open spec fn kv(&self) -> usize { *self } }
 impl<'a, T: KeyV + ?Sized> KeyV for &'a T { type KV = T::KV; open spec fn kv(&self) -> T::KV { (**self).kv() } }
 
+// the struct is opaque (external_body) and covariant in K like std's; its abstract value is the uninterpreted `view`
+#[verifier::external_body]
 #[verifier::reject_recursive_types(K)]
 #[verifier::reject_recursive_types(V)]
-pub struct HashMap<K: KeyV, V> { pub ghost m: Map<K::KV, V>, pub _k: ::std::marker::PhantomData<(K, V)> }
+pub struct HashMap<K, V> { pub _k: ::std::marker::PhantomData<(K, V)> }
 impl<K: KeyV, V> HashMap<K, V> {
-    pub open spec fn view(&self) -> Map<K::KV, V> { self.m }
+    pub uninterp spec fn view(&self) -> Map<K::KV, V>;
     #[verifier::external_body] pub fn new() -> (r: Self) ensures r@ == Map::<K::KV, V>::empty() { unimplemented!() }
     #[verifier::external_body] pub fn with_capacity(n: usize) -> (r: Self) ensures r@ == Map::<K::KV, V>::empty() { unimplemented!() }
     #[verifier::external_body] pub fn insert(&mut self, k: K, v: V) -> (o: Option<V>) ensures final(self)@ == old(self)@.insert(k.kv(), v) { unimplemented!() }
@@ -20,16 +22,17 @@ impl<K: KeyV, V> HashMap<K, V> {
     #[verifier::external_body] pub fn contains_key<Q: KeyV<KV = K::KV> + ?Sized>(&self, k: &Q) -> (r: bool) ensures r == self@.dom().contains(k.kv()) { unimplemented!() }
 }
 
+#[verifier::external_body]
 #[verifier::reject_recursive_types(K)]
-pub struct HashSet<K: KeyV> { pub ghost s: Set<K::KV>, pub _k: ::std::marker::PhantomData<K> }
+pub struct HashSet<K> { pub _k: ::std::marker::PhantomData<K> }
 impl<K: KeyV> HashSet<K> {
-    pub open spec fn view(&self) -> Set<K::KV> { self.s }
+    pub uninterp spec fn view(&self) -> Set<K::KV>;
     #[verifier::external_body] pub fn new() -> (r: Self) ensures r@ == Set::<K::KV>::empty() { unimplemented!() }
     #[verifier::external_body] pub fn insert(&mut self, k: K) -> (b: bool) ensures final(self)@ == old(self)@.insert(k.kv()), b == !old(self)@.contains(k.kv()) { unimplemented!() }
     #[verifier::external_body] pub fn contains<Q: KeyV<KV = K::KV> + ?Sized>(&self, k: &Q) -> (r: bool) ensures r == self@.contains(k.kv()) { unimplemented!() }
     #[verifier::external_body] pub fn remove<Q: KeyV<KV = K::KV> + ?Sized>(&mut self, k: &Q) -> (b: bool) ensures final(self)@ == old(self)@.remove(k.kv()), b == old(self)@.contains(k.kv()) { unimplemented!() }
     #[verifier::external_body] pub fn is_empty(&self) -> (r: bool) ensures r == (self@ =~= Set::<K::KV>::empty()) { unimplemented!() }
-    #[verifier::external_body] pub fn len(&self) -> (r: usize) ensures self@.finite() ==> r == self@.len() { unimplemented!() }
+    #[verifier::external_body] pub fn len(&self) -> (r: usize) ensures self@.finite() ==> r == self@.len(), (r == 0) == (self@ =~= Set::<K::KV>::empty()) { unimplemented!() }
     // R12 target for `for x in set`: every element exactly once, in an unspecified order
     #[verifier::external_body] pub fn to_vec(&self) -> (r: Vec<&K>)
         ensures
